@@ -9,4 +9,5 @@ def main (args : List String) : IO UInt32 := do
   match args with
   | ["merge"] => statefulLoopU stdin stdout mergeStep {}; return 0
   | ["skl"] => statefulLoop stdin stdout sklStep {}; return 0
-  | _ => IO.eprintln "usage: bmd_iter <merge|skl>"; return 2
+  | ["sklsched"] => statefulLoop stdin stdout schedStep {}; return 0
+  | _ => IO.eprintln "usage: bmd_iter <merge|skl|sklsched>"; return 2
